@@ -53,7 +53,6 @@ InScope(c) ==
     /\ (c.tok.claims = "ev_split" => c.tok.ev = "false")
     /\ (c.cfg.audClaim = "azp" => ~c.cfg.extraAud)
     /\ (Tier = "quick" => /\ Differs(c.tok) <= 1
-                          /\ (c.cfg.keys = "static" => c.tok.sig # "right" \/ c.tok = Good)
                           /\ (c.cfg.extraAud \/ c.cfg.audClaim = "azp" => c.tok.aud # "client" \/ c.tok = Good)
                           /\ (c.cfg.allowUnverified => c.tok.ev # "true" \/ c.tok.claims = "ev_split"))
     /\ (Tier = "thorough" => Differs(c.tok) <= 2 /\ (c.cfg.keys = "static" => Differs(c.tok) <= 1))
